@@ -186,11 +186,11 @@ CHECKS = {
     },
     "C08": {
         "groups": [
-            {"pkg": "Havoc/pkg/agent", "with": ["Havoc/pkg/logr", "Havoc/pkg/common/parser", "Havoc/pkg/socks"], "entries": ["H_c08_chain"], "flags": ["-tags", "uf_aes"], "shards": 3},
+            {"pkg": "Havoc/pkg/agent", "with": ["Havoc/pkg/logr", "Havoc/pkg/common/parser", "Havoc/pkg/socks"], "entries": ["H_c08_chain"], "flags": ["-tags", "uf_aes"], "shards": 3, "shards_thorough": 4},
             {"pkg": "Havoc/pkg/agent", "with": ["Havoc/pkg/logr", "Havoc/pkg/common/parser", "Havoc/pkg/socks"], "entries": ["H_c08_relay"], "flags": ["-tags", "uf_aes", "-time", "300s"]},
         ],
         "bounds": "chains of 1..3 SMB hops below a direct agent; every agent id with an arbitrary top byte (ids >= 0x80000000 included) and fixed distinct low 24 bits; task = arbitrary command / request id / int argument / byte argument of 0..2 bytes; AES-CTR as uninterpreted per-key stream.",
-        "outside": "depth > 3; fully arbitrary ids (thorough tier: target id fully symbolic); upward relay is covered by C05/C01 harnesses with AES as identity",
+        "outside": "depth > 3 (thorough: > 4); fully arbitrary ids (thorough tier: target id fully symbolic for one-hop chains); upward relay is covered by C05/C01 harnesses with AES as identity",
         "min_completed": 3,
     },
     "C03": {
